@@ -500,9 +500,8 @@ fn ann_req() -> impl Strategy<Value = AnnReq> {
 fn valid_unit() -> impl Strategy<Value = Unit> {
     let hexc = proptest::char::ranges(vec!['0'..='9', 'a'..='f', 'A'..='F'].into());
     prop_oneof![
-        1 => proptest::char::range('\u{0}', '\u{ff}')
-            .prop_filter("not structural", |c| !matches!(c, '%' | '&' | '='))
-            .prop_map(Unit::Raw),
+        // every char of U+0000..U+00FF except the structural ones '%' (0x25), '&' (0x26), '=' (0x3d)
+        1 => proptest::char::ranges(vec!['\u{0}'..='\u{24}', '\u{27}'..='\u{3c}', '\u{3e}'..='\u{ff}'].into()).prop_map(Unit::Raw),
         1 => (hexc.clone(), hexc).prop_map(|(a, b)| Unit::Pct(a, b)),
     ]
 }
@@ -513,7 +512,7 @@ fn faulty_unit() -> impl Strategy<Value = Unit> {
         2 => proptest::char::range('g', 'z'),
         // characters whose low byte is an ASCII hex digit (U+0130 -> '0', U+0141 -> 'A', ...)
         3 => prop_oneof![Just('\u{0130}'), Just('\u{0141}'), Just('\u{0261}'), Just('\u{ff10}'), Just('\u{0439}'), Just('\u{0166}')],
-        1 => any::<char>().prop_filter("not structural", |c| !matches!(c, '&' | '=')),
+        1 => any::<char>().prop_map(|c| if matches!(c, '&' | '=') { '~' } else { c }),
     ];
     prop_oneof![
         2 => prop_oneof![Just('\u{100}'), Just('\u{20ac}'), Just('\u{1f600}'), Just('\u{0130}')].prop_map(Unit::Raw),
